@@ -10,6 +10,7 @@ never delivers a reply to a stream other than the one named by its routing tag (
 import SeliumModel.Client.Requestor
 import SeliumModel.Client.Replier
 import SeliumModel.Lemmas.Digits
+import SeliumModel.Gen.Client
 
 namespace Selium.Client
 open Selium
@@ -196,6 +197,21 @@ theorem c04_timeout (s : Rq) (ci : Nat) (c : Call) (hc : s.calls[ci]? = some c) 
   simp only [hc, hw, if_true]
   simp [setState_getElem?, hc]
 
+/-- Timely error even when the request cannot be handed to the transport: the timer bounds the send as well
+    (regenerated from `requestor.rs`), so a waiting call fails with a timeout whether or not its send completed. -/
+theorem c04_timeout_covers_send : Gen.Client.requestTimeoutCoversSend = true := by decide
+
+theorem c04_timeout_timely (sent : Nat → Bool) (s : Rq) (ci : Nat) (c : Call) (hc : s.calls[ci]? = some c)
+    (hw : c.state = .waiting) :
+    (s.timeoutIfArmed Gen.Client.requestTimeoutCoversSend sent ci).calls[ci]? = some { c with state := .timedOut } := by
+  simp only [Rq.timeoutIfArmed, c04_timeout_covers_send, Bool.true_or, if_true]
+  exact c04_timeout s ci c hc hw
+
+/-- The defect this guards against, for the record: with a timer that starts only after the send, a call whose send
+    never completes stays waiting for ever. -/
+theorem c04_unarmed_timer_never_fires (s : Rq) (ci : Nat) : s.timeoutIfArmed false (fun _ => false) ci = s := by
+  simp [Rq.timeoutIfArmed]
+
 /-- Concurrent calls on one stream (any number of clones) get distinct ids as long as no more than 2^32 are
     made: the k-th call is given id k. -/
 theorem c04_ids_distinct (n : Nat) (hn : n ≤ U32) :
@@ -333,3 +349,6 @@ end Selium.Client
 #print axioms Selium.Client.c04_echoed_reply_reaches_its_requestor
 #print axioms Selium.Client.c04_request_id_roundtrip
 #print axioms Selium.Client.c04_honest_exchange_completes
+#print axioms Selium.Client.c04_timeout_covers_send
+#print axioms Selium.Client.c04_timeout_timely
+#print axioms Selium.Client.c04_unarmed_timer_never_fires
